@@ -60,6 +60,8 @@ PUSH_UNIT = Unit("C13.push", EX + "ExtractOptions.push", push_setup,
 def contract_extract_iter(ex, p, args, kwargs, node):
     """calling the generator function does nothing yet; stepping it is modelled by gen_next (its contract is proved by the
        extract_iter units of C05/C10)"""
+    if kwargs or len(args) != 2:
+        raise Unsupported("extract_iter called with arguments its contract does not cover")
     item, errors = args
     Y = p.new_seq("list", [])
     g = p.new_obj("extract_iter_gen")
@@ -212,6 +214,8 @@ CHILD_UNIT = Unit("C13.extract_child", EX + "extract_child", child_setup,
 # ------------------------------------------------------------------------------------------------ extract / extract_outermost
 def contract_extract_child(ex, p, args, kwargs, node):
     """callee contract (unit C13.extract_child): RuntimeError iff options unset; otherwise a fresh Stack; options untouched"""
+    if set(kwargs) != {"for_task"} or len(args) != 1:
+        raise Unsupported("extract_child call shape")
     co = ex.unit.bindings["current_options"]
     wc, rct = fields_now(p, co.t)
     t, f = ex.fork(p, Not(Val.is_none(rct)))
